@@ -128,6 +128,77 @@ theorem ind_ri_inverse (s : Screen) :
     simp only [cursorDown, m2, hy]
     rfl
 
+/-- ICH a ; ICH b = ICH (a+b) at the same cursor, in every state: same row, same blanks, same losses at the
+    right edge, same dirty set -/
+theorem ich_compose (s : Screen) (a b : Option Nat) :
+    insertCharacters (insertCharacters s a) b = insertCharacters s (some (nz a + nz b)) := by
+  simp only [insertCharacters, markDirty, nz_sum]
+  have hd : ∀ c, defaultCell { s with dirty := fun d => d == s.cursor.y || s.dirty d, cell := c } = defaultCell s :=
+    fun _ => rfl
+  congr 1
+  · funext y; by_cases h : y = s.cursor.y <;> simp [h]
+  · funext y x
+    simp only [hd]
+    by_cases h1 : y = s.cursor.y
+    · subst h1
+      by_cases h2 : s.cursor.x ≤ x <;> by_cases h3 : x < s.columns <;> simp only [h2, h3, beq_self_eq_true,
+        decide_true, decide_false, Bool.and_true, Bool.and_false, Bool.true_and, if_true, if_false,
+        Bool.false_eq_true]
+      by_cases h4 : x < s.cursor.x + nz b
+      · have : x < s.cursor.x + (nz a + nz b) := by omega
+        simp [h4, this]
+      · have h5 : s.cursor.x ≤ x - nz b := by omega
+        have h6 : x - nz b < s.columns := by omega
+        simp only [h4, h5, h6, if_false, decide_true, Bool.and_true, if_true]
+        by_cases h7 : x - nz b < s.cursor.x + nz a
+        · have : x < s.cursor.x + (nz a + nz b) := by omega
+          simp [h7, this]
+        · have : ¬ x < s.cursor.x + (nz a + nz b) := by omega
+          have e : x - nz b - nz a = x - (nz a + nz b) := by omega
+          simp [h7, this, e]
+    · simp [h1]
+
+/-- DCH a ; DCH b = DCH (a+b) at the same cursor, in every state -/
+theorem dch_compose (s : Screen) (a b : Option Nat) :
+    deleteCharacters (deleteCharacters s a) b = deleteCharacters s (some (nz a + nz b)) := by
+  simp only [deleteCharacters, markDirty, nz_sum]
+  have hd : ∀ c, defaultCell { s with dirty := fun d => d == s.cursor.y || s.dirty d, cell := c } = defaultCell s :=
+    fun _ => rfl
+  congr 1
+  · funext y; by_cases h : y = s.cursor.y <;> simp [h]
+  · funext y x
+    simp only [hd]
+    by_cases h1 : y = s.cursor.y
+    · subst h1
+      by_cases h2 : s.cursor.x ≤ x <;> by_cases h3 : x < s.columns <;> simp only [h2, h3, beq_self_eq_true,
+        decide_true, decide_false, Bool.and_true, Bool.and_false, Bool.true_and, if_true, if_false,
+        Bool.false_eq_true]
+      by_cases h4 : x + nz b < s.columns
+      · have h5 : s.cursor.x ≤ x + nz b := by omega
+        simp only [h4, h5, if_true, decide_true, Bool.and_true]
+        by_cases h7 : x + nz b + nz a < s.columns
+        · have : x + (nz a + nz b) < s.columns := by omega
+          have e : x + nz b + nz a = x + (nz a + nz b) := by omega
+          simp [this, e]
+        · have : ¬ x + (nz a + nz b) < s.columns := by omega
+          simp [h7, this]
+      · have : ¬ x + (nz a + nz b) < s.columns := by omega
+        simp [h4, this]
+    · simp [h1]
+
+/-- ED 2 (and ED 3) is idempotent: cells, dirty set, cursor -/
+theorem ed2_idempotent (s : Screen) :
+    eraseInDisplay (eraseInDisplay s (some 2)) (some 2) = eraseInDisplay s (some 2) ∧
+    eraseInDisplay (eraseInDisplay s (some 3)) (some 3) = eraseInDisplay s (some 3) := by
+  constructor <;>
+  · simp only [eraseInDisplay, Option.getD, edRows, edFill, markDirtyRange, cursorCell]
+    simp only [show ((2:Nat) == 0 || (2:Nat) == 1) = false from rfl, show ((3:Nat) == 0 || (3:Nat) == 1) = false from rfl,
+      Bool.false_eq_true, if_false]
+    congr 1
+    · funext d; by_cases h : d < s.lines <;> simp [h]
+    · funext y x
+      by_cases h : (decide (0 ≤ y) && decide (y < s.lines) && decide (x < s.columns)) = true <;> simp_all
+
 /-- SO / SI: idempotent, last one wins, nothing but the active-set flag changes -/
 theorem so_si_laws (s : Screen) :
     shiftOut (shiftOut s) = shiftOut s ∧ shiftIn (shiftIn s) = shiftIn s ∧
